@@ -75,6 +75,9 @@ def judge2_c01(line, impl):
         return ("sm2signok %s %s %s %s %s" % (t[1], t[2], t[3], r, s_), "true")
     if t[0] == "sm2signder" and len(t) == 4 and " " not in impl and impl not in ("err", "bad-op"):
         return ("sm2signderok %s %s %s" % (t[1], t[2], impl), "true")
+    if t[0] == "sm2hist" and len(t) >= 3 and " " not in impl and impl not in ("err", "bad-op"):
+        # every step on its own: a signature must verify for the step's ID / message / key, the rest must equal the spec
+        return ("sm2histok %s %s %s" % (t[1], impl, " ".join(t[2:])), "true")
     return None
 
 
@@ -101,7 +104,7 @@ def judge2_c07(line, impl):
         sent = "".join(w for w in t[6].split(",") if w != "-") or "-"
         return ("recread %s %s %s %s %s %s" % (t[1], t[2], t[3], t[4], wire, sent), "%s eof 1" % sent)
     return None
-HOOK_COMMITS = ["f0964c3", "f0ee85c", "a38392f", "da161e5", "5e35e30", "48a35e4", "bcc879f", "e7e32d2", "7bc6616", "1d0b9a9", "1418b64", "cbd428e", "2855402", "ccf80ce", "3a7a9aa", "9982186", "9f32c22", "4c97fac", "0b6988e", "21dc541", "613473f", "b9e98fd"]
+HOOK_COMMITS = ["f0964c3", "f0ee85c", "a38392f", "da161e5", "5e35e30", "48a35e4", "bcc879f", "e7e32d2", "7bc6616", "1d0b9a9", "1418b64", "cbd428e", "2855402", "ccf80ce", "3a7a9aa", "9982186", "9f32c22", "4c97fac", "0b6988e", "21dc541", "613473f", "b9e98fd", "28aa74c"]
 NOT_BUILT_REASON = "no check registered yet: the Lean model/theorems and the correspondence harness for this property have not been built in this session (work in progress, see DESIGN.md §12); the technique applies"
 
 PROPS["C05"] = {
@@ -190,6 +193,7 @@ PROPS["C11"] = {
 PROPS["C19"] = {
     "modules": ["Gmsm.Props.C19", "Gmsm.Props.C19Stream"],
     "theorems": [
+        "Props.C19.writer_rejects_misaligned", "Props.C19.writer_ok_aligned", "Props.C19.written_eq_total", "Props.C19.final_eq_old_of_aligned", "Props.C19.old_writer_accepts_misaligned",
         "Props.C19.reader_stream", "Props.C19.readAll_spec", "Props.C19.writer_stream", "Props.C19.unpad_padStream",
         "Props.C19.writer_inverse", "Props.C19.cache_le_block", "Props.C19.oldReader_short_read_witness",
         "Proofs.Padding.fill_spec", "Proofs.Padding.rinv_read", "Proofs.Padding.winv_write", "Props.C19Stream.enc_stream", "Props.C19Stream.enc_script_independent", "Props.C19Stream.dec_stream", "Props.C19Stream.dec_notMultiple_iff", "Props.C19Stream.dec_ok_iff", "Props.C19Stream.dec_badPad_iff", "Props.C19Stream.enc_dec_stream", "Props.C19Stream.cbc_enc_dec_stream", "Props.C19Stream.sm4_enc_stream", "Props.C19Stream.sm4_dec_stream", "Props.C19Stream.sm4_enc_dec_stream", "Props.C19Stream.read_len",
@@ -318,8 +322,9 @@ PROPS["C03"] = {
 
 PROPS["C01"] = {
     "judge2": judge2_c01,
-    "modules": ["Gmsm.Props.C01", "Gmsm.Props.C03", "Gmsm.Props.SM2Group", "Gmsm.Props.C14Codec", "Gmsm.Props.C09Sig"],
+    "modules": ["Gmsm.Props.C01", "Gmsm.Props.C03", "Gmsm.Props.SM2Group", "Gmsm.Props.C14Codec", "Gmsm.Props.C09Sig", "Gmsm.Props.C01Hist"],
     "theorems": [
+        "Gmsm.Props.C01Hist.run_length", "Gmsm.Props.C01Hist.run_append", "Gmsm.Props.C01Hist.run_step_independent", "Gmsm.Props.C01Hist.run_same_call_same_answer", "Gmsm.Props.C01Hist.memoStep_consistent", "Gmsm.Props.C01Hist.memoStep_answer", "Gmsm.Props.C01Hist.memo_transparent", "Gmsm.Props.C01Hist.memo_transparent_of_injective", "Gmsm.Props.C01Hist.memo_exposed_by_pair",
         "Props.C09Sig.verifySM2_eq_spec", "Props.C09Sig.decode_eq_strict", "Props.C09Sig.extra_member_rejected", "Props.C09Sig.unmarshalRS_of_decSig",
         "Props.C01.verify_range", "Props.C01.verify_altered_msg_iff", "Props.C01.verify_sign", "Props.C01.smul_mod_order",
         "Props.C01.der_roundtrip", "Props.C01.der_trailing_rejected", "Props.C01.decIntContent_intContent",
@@ -553,8 +558,10 @@ PROPS["C16"] = {
 }
 
 PROPS["C06"] = {
-    "modules": ["Gmsm.Props.C06", "Gmsm.Props.C06Keys", "Gmsm.Props.C07Stream", "Gmsm.Props.C15Complete", "Gmsm.Props.C06Read", "Gmsm.Props.C08Inter", "Gmsm.Props.C06KeyType", "Gmsm.Props.C06Offer"],
+    "modules": ["Gmsm.Props.C06", "Gmsm.Props.C06Keys", "Gmsm.Props.C07Stream", "Gmsm.Props.C15Complete", "Gmsm.Props.C06Read", "Gmsm.Props.C08Inter", "Gmsm.Props.C06KeyType", "Gmsm.Props.C06Offer", "Gmsm.Props.C06AutoSNI"],
     "theorems": [
+        "Props.C06.gm_only_dispatch",
+        "Props.C06AutoSNI.getGMSignCertificate_eq", "Props.C06AutoSNI.autoswitch_selects_like_gmonly", "Props.C06AutoSNI.autoswitch_eq_gmonly_static", "Props.C06AutoSNI.auto_ignores_name_map", "Props.C06AutoSNI.selection_ignores_names", "Props.C06AutoSNI.auto_is_original_without_map", "Props.C06AutoSNI.auto_unchanged_without_map", "Props.C06AutoSNI.fewer_than_two_unchanged", "Props.C06AutoSNI.callback_answer_unchanged", "Props.C06AutoSNI.original_agrees_iff", "Props.C06AutoSNI.original_right_without_map", "Props.C06AutoSNI.original_selected_encryption_certificate",
         "Props.C06Offer.gmClientKx_eq_gmServable", "Props.C06Offer.gmClientKx_table", "Props.C06Offer.gm_offer_completable", "Props.C06Offer.gm_offer_complete", "Props.C06Offer.gmOffer_eq", "Props.C06Offer.gm_client_never_refuses_kx", "Props.C06Offer.peer_preference_completable", "Props.C06Offer.pick_unchanged",
         "Props.C06KeyType.signNilOpts_guarded", "Props.C06KeyType.gmCore_crash", "Props.C06KeyType.tlsCore_no_crash", "Props.C06KeyType.tlsPath_no_crash", "Props.C06KeyType.crash_needs_missing_guard", "Props.C06KeyType.never_crashes", "Props.C06KeyType.gmCore_original_crash", "Props.C06KeyType.original_crashes_iff", "Props.C06KeyType.gmCore_ok", "Props.C06KeyType.gmssl_needs_sm2_keys", "Props.C06KeyType.gmssl_sm2_completes", "Props.C06KeyType.pick_agrees", "Props.C06KeyType.getCertificate_tls", "Props.C06KeyType.tlsCore_version", "Props.C06KeyType.tls_version_independent", "Props.C06KeyType.sm2_client_cert_every_tls_version", "Props.C06KeyType.gmCore_local", "Props.C06KeyType.tlsCore_local", "Props.C06KeyType.repairs_are_local",
         "Props.C06.exported_suites_negotiable", "Props.C06.ecdhe_rsa_aes128_cbc_rows", "Props.C08Inter.client_verifies_via_intermediate", "Props.C08Inter.certList_leaves_first",
@@ -595,6 +602,7 @@ PROPS["C15"] = {
     "judge": lambda l, a, b: (judge_parsers(l, a, b) if l.split(" ", 1)[0] in ("hsmsg", "hsmsgm") else judge_class_only(("hsseq", "hsout", "hsflight", "chmod", "shmod", "shmodv", "chext", "shticket"))(l, a, b)),
     "modules": ["Gmsm.Props.C15", "Gmsm.Props.C15Codec", "Gmsm.Props.C15Complete", "Gmsm.Props.C06Read", "Gmsm.Props.C15Limits", "Gmsm.Props.C15KeyAgreement", "Gmsm.Props.C15Strict"],
     "theorems": [
+        "Props.C15.gmServerVersion_default", "Props.C15Limits.gmServerVersion_lim", "Props.C15Limits.gm_only_server_accepts_only_gmssl", "Props.C15Limits.gm_only_server_proceeds_iff", "Props.C15Limits.gm_only_server_default", "Props.C15Limits.auto_gm_agrees_with_gm_only", "Props.C15Limits.gm_path_version",
         "Props.C15Strict.clientVersionOkLim_iff", "Props.C15Strict.client_accepts_only_unclamped_version", "Props.C15Strict.client_rejects_version_above_offer", "Props.C15Strict.clientHelloCheckLim_default", "Props.C15Strict.client_rejects_version_above_tls12", "Props.C15Strict.tls12Suites_eq", "Props.C15Strict.tls12Only_iff", "Props.C15Strict.server_choice_passes_client_rule", "Props.C15Strict.client_never_tls12_suite_below_tls12", "Props.C15Strict.client_rejects_tls12_suite_below_tls12", "Props.C15Strict.sniLoop_sound", "Props.C15Strict.sniLoop_complete", "Props.C15Strict.chExtension_sni_iff", "Props.C15Strict.sniLoop_printable_tail", "Props.C15Strict.sni_hostname_length_perturbed", "Props.C15Strict.sni_list_length_perturbed", "Props.C15Strict.ridLoop_sound", "Props.C15Strict.ridLoop_complete", "Props.C15Strict.ocspRequestOk_iff", "Props.C15Strict.chExtension_ocsp_iff", "Props.C15Strict.ocsp_two_lengths", "Props.C15Strict.ocsp_length_perturbed", "Props.C15Strict.chExtLoop_rejects_perturbed_sni", "Props.C15Strict.chExtLoop_rejects_perturbed_ocsp", "Props.C15Strict.clientTicketCheck_iff", "Props.C15Strict.unsolicited_ticket_rejected", "Props.C15Strict.newSessionTicket_only_in_ticket_phase", "Props.C15Strict.ticket_phase_iff", "Props.C15Strict.never_enters_ticket_phase", "Props.C15Strict.ticket_phase_unreachable", "Props.C15Strict.unsolicited_newSessionTicket_is_error", "Props.C15Strict.finished_with_trailing_is_error", "Props.C15Strict.finished_with_trailing_never_accepted", "Props.C15Strict.finished_with_trailing_never_done", "Props.C15.clientSuiteVersionOk_iff",
         "Props.C15KeyAgreement.clientKx_never_panics", "Props.C15KeyAgreement.ecdheGM_always_error", "Props.C15KeyAgreement.processGM_refuses_all", "Props.C15KeyAgreement.processGMWith_sound", "Props.C15KeyAgreement.unchecked_share_panics", "Props.C15KeyAgreement.unchecked_share_x25519", "Props.C15KeyAgreement.rsa_goes_on_iff", "Props.C15KeyAgreement.rsa_wrong_key_is_error", "Props.C15KeyAgreement.clientKx_accepts_only_matching", "Props.C15KeyAgreement.generate_after_processTLS",
         "Props.C15Limits.mutualVersionLim_default", "Props.C15Limits.gap_refused", "Props.C15Limits.below_min_refused",
@@ -678,7 +686,7 @@ PROPS["C15"] = {
     ],
     "gen_items": [],
     "level": "proof",
-    "claim": "Model.Handshake is the message-acceptance automaton of the gmtls endpoints as the code is: the record-layer rules of readRecord/readHandshake (record type against phase, ChangeCipherSpec only when asked for and not while part of a message is buffered, oversized records and messages, at most 5 consecutive warning alerts, close_notify/fatal alert/EOF, the GMSSL client's missing haveVers) and the per-state type assertions of the GMSSL and TLS server and client (full, client-certificate, ticket and resumption variants, NPN, the TLS client's optional CertificateStatus/ServerKeyExchange/CertificateRequest), over an alphabet of 33 events. Proved for every configuration and EVERY finite event sequence: if the handshake completes with the last event, the sequence with tolerated events erased is one of the flights expected c, which are written out per role (done_only_expected, run_done_iff, expected_*); once the stream has ended no state keeps waiting (no_wait_after_eof, eof_is_error); in every state every event other than the at most two (TLS client: four) listed types and the tolerated ones is an error, with its alert (unexpected_is_error, unexpected_cases, unexpected_cases_ccs, expected_is_taken); every step errors, completes, moves to a later phase or is a tolerated event, the sixth consecutive warning alert is fatal, and a still-running endpoint has read at most 6*8+5 events other than empty records and record-boundary artefacts (progress, six_warnings_fatal, bounded_stall, stall_bound). Version dispatch for all client_version values at once by omega: below 0x0101 and in (0x0101,0x0300) every mode rejects; the auto-switch server enters GMSSL code iff v=0x0101, TLS code iff 0x0300<=v<=0x0303 at that version, and rejects everything else including all v>0x0303; TLS-only and GMSSL-only servers cap at 0x0303; no version without a PRF is ever negotiated (dispatch_*, dispatch_version_has_prf, auto_gm_iff); a hello with unsupported version, compression or suites is refused before any ServerHello and a ServerHello names an offered, servable suite (hello_refused, hello_suite_offered). Correspondence on every run: a man in the middle between the real endpoint under test and a genuine gmtls peer applies edit scripts to the stream towards the endpoint (drop, dup, swap, retype, insert any handshake type or record-level event incl. CCS, application data, alerts, empty/oversized/unknown/wrong-version records, truncation, length-field perturbation, split/join/trailing bytes, EOF before every item, EOF of the endpoint's own stream after every record), for GMSSL/TLS/auto-switch servers and GMSSL/TLS clients in full, client-cert, ticket and resumed handshakes, plus ClientHello version sweeps 0x0000..0x0400, suite lists of known and unknown ids and compression rewrites in all three server modes; Handshake's result, panics (both ends), waiting after end of stream (decided by exact deadlock detection, not time) and the alert written are compared line by line with the model (quick 1510 ops, thorough about 31 800: all single edits at every position, all pairs of order-level edits for the GMSSL roles, seeded multi-edit scripts). Added: the client's check of a ServerHello (version, suite in offered and known, null compression) is characterised outright (client_accepts_hello_iff, client_never_accepts_unoffered) and compared with the real client by the shmod op (man-in-the-middle rewrites of the genuine ServerHello). Byte level (Model.TLSMessages, Props.C15Codec, 157 theorems): unmarshal/marshal of all 16 handshake message kinds modelled step for step (both hellos with every recognised extension, both certificate-request layouts, the uint32 wrap in the certificate loop); per message an exact acceptance characterisation (unmarshalX_iff), the round trip unmarshal(marshal m) = m for well-formed m and canonicity where the parser is strict; where it is not strict the theorem says so (unmarshalFinished_any_tail, unmarshalCertificate_header_ignored, unmarshalCertificateStatus_other_trailing). Tied by ops hsmsg (every parsed field and marshal of the re-built struct compared) and hsmsgm (marshal on arbitrary, also out-of-range, fields): every truncation of short samples with and without fixed header length, boundary cuts, consistent resize mutations. Completeness (Props.C15Complete, for every configuration): the accepted language is characterised exactly - accepts_iff: a sequence is accepted iff it is one of the flights expected c with, before each message, a gap of tolerated events that respects the limits of the code (at most 5 consecutive warning alerts, reset only by an accepted message or a non-empty handshake record; while ChangeCipherSpec is awaited nothing but warning alerts); expected_accepted / accepts_iff_expected for sequences without tolerated events; what an honest endpoint writes (Model.HandshakeSends.sends, the stream the hsflight op compares with what the real peer wrote) is accepted by the other end in both directions for every compatible pair (honest_pair_completes, honest_pair_both_done, honest_pair_completes_iff), a server accepts exactly that one flight (server_completes_only_on_honest), a client exactly the honest flights of the servers it may face (client_expected_iff, gmClient_expected). The one incompatible combination is proved too: a GMSSL client that asked for OCSP stapling aborts on the CertificateStatus a GMSSL server would send (gm_ocsp_not_accepted); gmtls' own GMSSL client never sends status_request. Byte-level reassembly of handshake messages (Props.C06Read): a header announcing more than 65536 bytes is refused as soon as its 4 bytes are there (hs_too_long, readHandshake_tooLong), a stream ending inside a message is an error and never a message (hs_truncated_is_error), a Read sequence with non-empty buffers ends (read_terminates), ChangeCipherSpec is accepted only with an empty handshake buffer (ccs_requires_empty_hand); empty handshake records are skipped without limit, as the code does (hs_empty_records).",
+    "claim": "Model.Handshake is the message-acceptance automaton of the gmtls endpoints as the code is: the record-layer rules of readRecord/readHandshake (record type against phase, ChangeCipherSpec only when asked for and not while part of a message is buffered, oversized records and messages, at most 5 consecutive warning alerts, close_notify/fatal alert/EOF, the GMSSL client's missing haveVers) and the per-state type assertions of the GMSSL and TLS server and client (full, client-certificate, ticket and resumption variants, NPN, the TLS client's optional CertificateStatus/ServerKeyExchange/CertificateRequest), over an alphabet of 33 events. Proved for every configuration and EVERY finite event sequence: if the handshake completes with the last event, the sequence with tolerated events erased is one of the flights expected c, which are written out per role (done_only_expected, run_done_iff, expected_*); once the stream has ended no state keeps waiting (no_wait_after_eof, eof_is_error); in every state every event other than the at most two (TLS client: four) listed types and the tolerated ones is an error, with its alert (unexpected_is_error, unexpected_cases, unexpected_cases_ccs, expected_is_taken); every step errors, completes, moves to a later phase or is a tolerated event, the sixth consecutive warning alert is fatal, and a still-running endpoint has read at most 6*8+5 events other than empty records and record-boundary artefacts (progress, six_warnings_fatal, bounded_stall, stall_bound). Version dispatch for all client_version values at once by omega: below 0x0101 and in (0x0101,0x0300) every mode rejects; the auto-switch server enters GMSSL code iff v=0x0101, TLS code iff 0x0300<=v<=0x0303 at that version, and rejects everything else including all v>0x0303; a TLS-only server caps at 0x0303, a GMSSL-only server proceeds iff v=0x0101 (since the round-12 repair 4e42ea8; before, it ran the GM handshake at 0x0300..0x0303: gm_only_server_accepts_only_gmssl); no version without a PRF is ever negotiated (dispatch_*, dispatch_version_has_prf, auto_gm_iff); a hello with unsupported version, compression or suites is refused before any ServerHello and a ServerHello names an offered, servable suite (hello_refused, hello_suite_offered). Correspondence on every run: a man in the middle between the real endpoint under test and a genuine gmtls peer applies edit scripts to the stream towards the endpoint (drop, dup, swap, retype, insert any handshake type or record-level event incl. CCS, application data, alerts, empty/oversized/unknown/wrong-version records, truncation, length-field perturbation, split/join/trailing bytes, EOF before every item, EOF of the endpoint's own stream after every record), for GMSSL/TLS/auto-switch servers and GMSSL/TLS clients in full, client-cert, ticket and resumed handshakes, plus ClientHello version sweeps 0x0000..0x0400, suite lists of known and unknown ids and compression rewrites in all three server modes; Handshake's result, panics (both ends), waiting after end of stream (decided by exact deadlock detection, not time) and the alert written are compared line by line with the model (quick 1510 ops, thorough about 31 800: all single edits at every position, all pairs of order-level edits for the GMSSL roles, seeded multi-edit scripts). Added: the client's check of a ServerHello (version, suite in offered and known, null compression) is characterised outright (client_accepts_hello_iff, client_never_accepts_unoffered) and compared with the real client by the shmod op (man-in-the-middle rewrites of the genuine ServerHello). Byte level (Model.TLSMessages, Props.C15Codec, 157 theorems): unmarshal/marshal of all 16 handshake message kinds modelled step for step (both hellos with every recognised extension, both certificate-request layouts, the uint32 wrap in the certificate loop); per message an exact acceptance characterisation (unmarshalX_iff), the round trip unmarshal(marshal m) = m for well-formed m and canonicity where the parser is strict; where it is not strict the theorem says so (unmarshalFinished_any_tail, unmarshalCertificate_header_ignored, unmarshalCertificateStatus_other_trailing). Tied by ops hsmsg (every parsed field and marshal of the re-built struct compared) and hsmsgm (marshal on arbitrary, also out-of-range, fields): every truncation of short samples with and without fixed header length, boundary cuts, consistent resize mutations. Completeness (Props.C15Complete, for every configuration): the accepted language is characterised exactly - accepts_iff: a sequence is accepted iff it is one of the flights expected c with, before each message, a gap of tolerated events that respects the limits of the code (at most 5 consecutive warning alerts, reset only by an accepted message or a non-empty handshake record; while ChangeCipherSpec is awaited nothing but warning alerts); expected_accepted / accepts_iff_expected for sequences without tolerated events; what an honest endpoint writes (Model.HandshakeSends.sends, the stream the hsflight op compares with what the real peer wrote) is accepted by the other end in both directions for every compatible pair (honest_pair_completes, honest_pair_both_done, honest_pair_completes_iff), a server accepts exactly that one flight (server_completes_only_on_honest), a client exactly the honest flights of the servers it may face (client_expected_iff, gmClient_expected). The one incompatible combination is proved too: a GMSSL client that asked for OCSP stapling aborts on the CertificateStatus a GMSSL server would send (gm_ocsp_not_accepted); gmtls' own GMSSL client never sends status_request. Byte-level reassembly of handshake messages (Props.C06Read): a header announcing more than 65536 bytes is refused as soon as its 4 bytes are there (hs_too_long, readHandshake_tooLong), a stream ending inside a message is an error and never a message (hs_truncated_is_error), a Read sequence with non-empty buffers ends (read_terminates), ChangeCipherSpec is accepted only with an empty handshake buffer (ccs_requires_empty_hand); empty handshake records are skipped without limit, as the code does (hs_empty_records).",
     "note": "Partial: message contents are not modelled; a message of the expected type is taken to carry what the genuine peer wrote. The two content outcomes the state machine depends on are explicit events: malformed (body fails to unmarshal) and finishedBad (verify_data mismatch). The driver carries the abstract rule 'an edit that changes the bytes E hashes makes the transcripts differ, so the peer rejects E's answer / E's Finished check fails'; for trunc/len edits only done/error is compared (whether the parser notices is C18's subject), for all other edits the alert code is compared too (printed 'enc' once the endpoint writes under its new keys). A protected record cannot be forged by the man in the middle, so events after ChangeCipherSpec are limited to the genuine Finished and records that fail decryption. NPN and OCSP-status branches of the automaton are proved but not exercised (two gmtls peers never negotiate them). Certificate policy outcomes (empty certificate under Require*) are content-level and not in the automaton. The code does not bound empty handshake records (empty_records_unbounded) and a TLS-only/GMSSL-only server lets 0x0101 resp. >=0x0300 through mutualVersion; both are modelled as they are and listed in harness/c15_findings.txt.",
     "trusted_base": ["Model.Handshake tied by the hsseq/hsflight/hsout/chmod ops (exact line equality incl. alert code) in harness/c15.go; the script->event translation Driver/Handshake.lean (streamOf, cipherPass, taints)", "harness deadlock detector (qWorld: all readers blocked on empty pipes) and the intrinsic oracles panic / hang / completed-on-misbehaviour", "harness/tls.go PKI and config builders; the genuine gmtls peer", "Go runtime recover()"],
     "assumptions": ["messages of the expected type carry what an honest peer sends (contents outside the model)", "transcripts that differ never produce a matching Finished (collision resistance of SM3/SHA-256 and the PRF) — used only in the driver's translation, stated there", "default Config version limits (MinVersion/MaxVersion unset)"],
